@@ -38,15 +38,27 @@ def rw_nop(n, rng):
     return zast.replace_at(n, p, f)
 
 
+def order_is_kept(n, path):
+    """Is the node at PATH outside every construct that materialises the ORDER of what it yields (a capture, a format-string
+    splice)?  The two rewrites below replace a construct by an ALT; when several stacks reach an ALT the order in which its
+    results come out is not specified, so inside such constructs the rewritten program may legitimately differ."""
+    cur = n
+    for i in path:
+        if cur[0] in ("cap", "bcap", "str"):
+            return False
+        cur = zast.children(cur)[i][0]
+    return True
+
+
 def rw_qmark(n, rng):
-    ps = zast.paths(n, lambda x: x[0] == "close" and x[1] == "?")
+    ps = [p for p in zast.paths(n, lambda x: x[0] == "close" and x[1] == "?") if order_is_kept(n, p)]
     if not ps:
         return None
     return zast.replace_at(n, rng.choice(ps), lambda x: ("paren", (), ("alt", [x[2], ("cat", [])])))
 
 
 def rw_if(n, rng):
-    ps = zast.paths(n, lambda x: x[0] == "if")
+    ps = [p for p in zast.paths(n, lambda x: x[0] == "if") if order_is_kept(n, p)]
     if not ps:
         return None
     return zast.replace_at(n, rng.choice(ps), lambda x: ("paren", (), ("alt", [
